@@ -549,6 +549,8 @@ def _src(x):
 def sp_distinct_rows(interp, st, args, kwargs, node):
     """no two positions of the sequence hold equal rows"""
     x = _src(args[0])
+    if isinstance(x, CSet):
+        return True  # the members of a set are distinct by construction
     if isinstance(x, Arr):
         x = x.rows() if x.ndim == 2 else []
     if isinstance(x, list):
